@@ -136,6 +136,31 @@ def run(ck):
                 ck.verdict(bool(stores), "2", "T10-dead-guard", b, "release-guarded-by:%s" % fld, "the release is guarded by `%s`, which is set to a non-initial value in %s" % (fld, sorted(set(stores))), "the release of the fd is guarded by `%s`, but no code in the crate ever stores a value other than the initial one into that field: the release is dead code" % fld, site=b.where(cs.bb))
     ck.floor("2", "state-guarded releases", n10, 2)
 
+    # ---- clause 2b: the 'registered' flags say what the poller holds ------------------------------------------
+    # A store of `false` into a flag that guards a release (is_registered) is a claim that the fd has left the poller:
+    # it must sit in a function that performs the release on the paths through the store. (A one-shot registration that
+    # fired is disarmed, not deleted: the fd is still in the epoll set.)
+    n2b = 0
+    for b in f.bodies.values():
+        for i, j, st in T.stores_to_field(b, "is_registered"):
+            if b.is_cleanup(i) or st["rv"]["r"] != "use" or T.const_value(b, st["rv"]["o"], 8) != 0:
+                continue
+            if any(s2["s"] == "assign" and s2["rv"]["r"] == "agg" for s2 in [st]):
+                continue
+            n2b += 1
+            rel = [cs.bb for cs in b.calls() if RELEASE(cs) and not b.is_cleanup(cs.bb)]
+            ok = bool(rel) and (T.t3_dominated_by_any(b, i, rel) or T.t2_all_exits(b, [i], rel) is None)
+            ck.verdict(ok, "2", "T11-acquire-release", b, "flag-cleared=>released", "`is_registered = false` is accompanied by the poller release on every path through it", "%s clears `is_registered` without deleting the fd from the poller: the teardown (kill) then skips the release, the fd stays registered after the adapter is gone, and adapting it again fails with EEXIST" % b.qual, site=b.where(i))
+    for b in f.bodies.values():
+        for cs in T.calls(b, name=("replace", "take"), path="std::mem"):
+            if not b.is_cleanup(cs.bb) and T.path_has(b, cs.args[0], ".is_registered") and (cs.name == "take" or T.const_value(b, cs.args[1], 8) == 0):
+                n2b += 1
+                rel = [c.bb for c in b.calls() if RELEASE(c) and not b.is_cleanup(c.bb)]
+                tr, fa = T.bool_split(b, cs.bb)
+                ok = bool(rel) and bool(tr) and T.t2_all_exits(b, [x for _, x in tr], rel) is None
+                ck.verdict(ok, "2", "T11-acquire-release", b, "flag-cleared=>released", "the flag is test-and-cleared and the 'was registered' edge always releases", "%s clears `is_registered` without releasing on the 'was registered' edge" % b.qual, site=b.where(cs.bb))
+    ck.floor("2", "stores clearing is_registered", n2b, 1)
+
     # ---- clause 3: Poll::{register, reregister, unregister} -----------------------------------------------
     for q, pm, maps in (("Poll::register", "add_with_mode", "insert"), ("Poll::reregister", "modify_with_mode", "insert"), ("Poll::unregister", "delete", ("retain", "remove"))):
         b = ck.opt_body(q)
@@ -150,13 +175,16 @@ def run(ck):
             ck.verdict(T.resolves_to_arg(b, cs.args[1], 2) or T.tainted_by_call(b, cs.args[1], [c.bb for c in T.calls(b, name=("as_fd", "as_raw_fd"))]), "3", "T6-provenance", b, "fd-is-the-parameter", "the fd given to the poller is the fd parameter", "the fd given to the poller is not derived from the fd parameter", site=b.where(cs.bb))
             if pm != "delete":
                 cv = [c.bb for c in T.calls(b, name="cvt_interest")]
-                cm = [c.bb for c in T.calls(b, name="cvt_mode")]
+                conv = common.mode_converter(f)
+                conv_calls = [c for c in b.calls() if conv is not None and c.callee_body() is conv[0] and not b.is_cleanup(c.bb)]
+                cm = [c.bb for c in conv_calls]
                 ck.verdict(bool(cv) and T.resolves_to_call(b, cs.args[2], cv), "3", "T6-provenance", b, "event-from-cvt_interest", "the poller event is cvt_interest(interest, token)", "the poller event is not the translated interest/token", site=b.where(cs.bb))
-                ck.verdict(bool(cm) and T.resolves_to_call(b, cs.args[3], cm), "3", "T6-provenance", b, "mode-from-cvt_mode", "the poll mode is cvt_mode(mode, ..)", "the poll mode is not the translated mode", site=b.where(cs.bb))
+                inlined_conv = conv is not None and conv[0].key in b.raw.get("inlined", []) and all(r[0] == "agg" and b.agg_at(r[1], r[2]).get("adt", "").endswith("PollMode") for r, p_ in b.resolve(cs.args[3]))
+                ck.verdict((bool(cm) and T.resolves_to_call(b, cs.args[3], cm)) or inlined_conv, "3", "T6-provenance", b, "mode-from-cvt_mode", "the poll mode is cvt_mode(mode, ..)", "the poll mode is not the translated mode", site=b.where(cs.bb))
                 for c in T.calls(b, name="cvt_interest"):
                     ck.verdict(T.resolves_to_arg(b, c.args[0], 3) and T.resolves_to_arg(b, c.args[1], 5), "3", "T6-provenance", b, "cvt_interest(own interest, own token)", "translates the function's own interest and token", "cvt_interest is not applied to the function's own interest/token parameters", site=b.where(c.bb))
-                for c in T.calls(b, name="cvt_mode"):
-                    ck.verdict(T.resolves_to_arg(b, c.args[0], 4), "3", "T6-provenance", b, "cvt_mode(own mode)", "translates the function's own mode", "cvt_mode is not applied to the function's own mode parameter", site=b.where(c.bb))
+                for c in conv_calls:
+                    ck.verdict(T.resolves_to_arg(b, c.args[conv[1] - 1], 4), "3", "T6-provenance", b, "cvt_mode(own mode)", "translates the function's own mode", "cvt_mode is not applied to the function's own mode parameter", site=b.where(c.bb))
         mapcalls = [cs for cs in T.calls(b, name=maps) if T.path_has(b, cs.args[0], ".level_triggered")]
         ck.verdict(bool(mapcalls), "3", "T8-sibling-agreement", b, "level-map:%s" % (maps if isinstance(maps, str) else "|".join(maps)), "the level-emulation map is maintained (%s)" % (maps if isinstance(maps, str) else "/".join(maps)), "%s does not maintain the level-emulation map" % q, site=b.where())
 
@@ -164,6 +192,8 @@ def run(ck):
     from props import C06, C15
 
     common.import_results(ck, C06, "2", None, "5")
+    # a self-directed update() re-registers (it must not be turned into a Disable that deletes the fd), shared with C09.4
+    common.dispatch_infra(ck, "5")
     common.import_results(ck, C15, "4", "IoLoopInner", "4")
     # every (re)registration really reaches the poller: interest, mode and key last requested are the ones armed
     for q, callee in (("<Generic as EventSource>::register", "register"), ("<Generic as EventSource>::reregister", "reregister")):
